@@ -1095,6 +1095,29 @@ def opt_alts(crate, s, depth=0):
                     out.append((y, n or n2))
             return out
 
+        def apply(f, opt):
+            """what closure f returns for the Some payload of opt, in the caller's terms"""
+            f = strip_sym(f)
+            payload = ("field", ("downcast", opt, "Some"), "0")
+            if f[0] == "agg" and f[1] == "closure" and crate.by_path.get(f[5]) is not None:
+                def sub(x):
+                    if not isinstance(x, tuple) or not x:
+                        return x
+                    if x[0] == "arg" and x[1] == 1:
+                        return payload
+                    if x[0] in ("capture", "const"):
+                        return x
+                    return tuple(sub(y) if isinstance(y, tuple) else y for y in x)
+
+                return sub(Sym(crate.by_path[f[5]]).local(0))
+            if f[:2] == ("const", "fn"):
+                return ("call", f[2], (payload,), f[2])
+            return ("unknown", "closure")
+
+        if path_is(s[1], "Option<T>::map_or") and len(a) == 3:
+            return opt_alts(crate, apply(a[2], a[0]), depth + 1) + [(x, "if-none") for x, _ in opt_alts(crate, a[1], depth + 1)]
+        if path_is(s[1], "Option<T>::map_or_else") and len(a) == 3:
+            return opt_alts(crate, apply(a[2], a[0]), depth + 1) + [(x, "if-none") for x, _ in opt_alts(crate, run_closure(a[1]), depth + 1)]
         if path_is(s[1], "Option<T>::unwrap_or") and len(a) == 2:
             return payloads(a[0]) + [(strip_sym(a[1]), "if-none")]
         if path_is(s[1], "Option<T>::unwrap_or_else") and len(a) == 2:
